@@ -40,6 +40,10 @@ def faults(rnd, n):
         if "Länge von unbekannt" in pos:
             twin = 'Der Text unbekannt%N% ist "abc".\n' + pos
         out.append(("undeclared name", pos, twin))
+    out.append(("undeclared name in argument of overloaded call", "Schreibe (unbekannt%N% plus 1) auf eine Zeile.", "Die Zahl unbekannt%N% ist 3.\nSchreibe (unbekannt%N% plus 1) auf eine Zeile."))
+    for bad, good in [("der Standardwert von einem Kommazahl", "der Standardwert von einer Kommazahl"), ("die Größe von einem Zahl", "die Größe von einer Zahl"),
+                      ("der Standardwert von einer Text", "der Standardwert von einem Text"), ("der Standardwert von einem Zahlen Liste", "der Standardwert von einer Zahlen Liste")]:
+        out.append(("wrong article in argument of overloaded call", "Schreibe (%s) auf eine Zeile." % bad, "Schreibe (%s) auf eine Zeile." % good))
     # 2 use after the declaring block ended / loop variable after the loop
     out.append(("out of scope: after block", "Wenn wahr, dann:\n\tDie Zahl inn%N% ist 1.\nDie Zahl a%N% ist inn%N%.", "Die Zahl inn%N% ist 1.\nWenn wahr, dann:\n\tDie Zahl c%N% ist inn%N%.\nDie Zahl a%N% ist inn%N%."))
     out.append(("out of scope: loop variable", "Für jede Zahl lv%N% von 1 bis 2, mache:\n\tDie Zahl c%N% ist lv%N%.\nDie Zahl a%N% ist lv%N%.",
@@ -60,6 +64,9 @@ def faults(rnd, n):
                      ("2 um wahr Bit nach links verschoben", "2 um 1 Bit nach links verschoben"), ('"a" zwischen 1 und 3 ist', "2 zwischen 1 und 3 ist"),
                      ('"abc" im Bereich von wahr bis 2', '"abc" im Bereich von 1 bis 2'), ("logisch nicht 2,5", "logisch nicht 2")]:
         out.append(("operand type", "Die Variable o%N% ist (" + expr + ").", "Die Variable o%N% ist (" + ok + ")."))
+        # the same fault inside an argument of an overloaded alias (several candidates are tried on the cached argument)
+        if not ok.startswith(('"abc" im Bereich', "wahr, falls", "1, falls")):
+            out.append(("operand type in argument of overloaded call", "Schreibe (" + expr + ") auf eine Zeile.", "Schreibe (" + ok + ") auf eine Zeile."))
     # 5 non-assignable value: initialiser, assignment, argument, condition, loop bound, step, repeat count, return
     for src in tnames:
         for dst in tnames:
@@ -109,6 +116,13 @@ def toplevel_faults():
     ref = "Die Funktion setz%N% mit dem Parameter a vom Typ Zahlen Referenz, gibt nichts zurück, macht:\n\tSpeichere 1 in a.\nUnd kann so benutzt werden:\n\t\"setz%N% <a>\"\n"
     out.append(("constant: Referenz passing", ref + "Die Konstante k%N% ist 5.\nsetz%N% k%N%.\n", ref + "Die Zahl k%N% ist 5.\nsetz%N% k%N%.\n", {}))
     out.append(("literal as Referenz argument", ref + "setz%N% 5.\n", ref + "Die Zahl k%N% ist 5.\nsetz%N% k%N%.\n", {}))
+    ref2 = ref + ref.replace("Funktion setz%N%", "Funktion setzt%N%").replace("Zahlen Referenz", "Text Referenz").replace("Speichere 1 in a", 'Speichere "x" in a')
+    out.append(("constant: Referenz passing to overloaded alias", ref2 + "Die Konstante k%N% ist 5.\nsetz%N% k%N%.\n", ref2 + "Die Zahl k%N% ist 5.\nsetz%N% k%N%.\n", {}))
+    ovl = ("Die Funktion zeigz%N% mit dem Parameter x vom Typ Zahl, gibt nichts zurück, macht:\n\tDie Zahl q%N% ist x.\nUnd kann so benutzt werden:\n\t\"zeige%N% <x>\"\n"
+           "Die Funktion zeigt%N% mit dem Parameter x vom Typ Text, gibt nichts zurück, macht:\n\tDer Text q%N% ist x.\nUnd kann so benutzt werden:\n\t\"zeige%N% <x>\"\n")
+    out.append(("wrong article in argument of overloaded user alias", ovl + "zeige%N% (die Größe von einem Zahl).\n", ovl + "zeige%N% (die Größe von einer Zahl).\n", {}))
+    out.append(("operand type in argument of overloaded user alias", ovl + "zeige%N% (wahr plus 1).\n", ovl + "zeige%N% (2 plus 1).\n", {}))
+    out.append(("argument type matches no overload", ovl + "zeige%N% wahr.\n", ovl + "zeige%N% 2.\n", {}))
     out.append(("redeclaration: function", fn("zwei%N%", "nichts", "\tVerlasse die Funktion.") + fn("zwei%N%", "nichts", "\tVerlasse die Funktion.").replace('"zwei%N%"', '"zwei%N% nochmal"'),
                 fn("zwei%N%", "nichts", "\tVerlasse die Funktion.") + fn("zweib%N%", "nichts", "\tVerlasse die Funktion."), {}))
     out.append(("parameter named like a function", fn("fname%N%", "nichts", "\tVerlasse die Funktion.") +
